@@ -428,7 +428,36 @@ def record_and_replay(prop, ob, db, sc, do_replay=True):
             inputs = p['inputs']
             break
     status = 'no-input'
-    if inputs is not None and ob.contract.cxx:
+    if getattr(ob.contract, 'prefetch', None):
+        # prefetch hints: no value to compare -- the real function is called on a null pointer, a misaligned invalid
+        # address and an inaccessible page (at every offset class the counterexample could mean) with the counterexample's
+        # count; a signal or a call that does not return confirms
+        pf = ob.contract.prefetch
+        nv = ((inputs or {}).get('n_in', {}) or {}).get('n_in', {}) or {}
+        n_value = int(nv['bin'], 2) if nv.get('bin') else 0
+        rec['n'] = n_value
+        tpl = '<avel::Cache_level(%d)%s>' % (pf['level'], (', ' + pf['elem']) if pf['elem'] else '')
+        pt = ('const %s*' % pf['elem']) if pf['elem'] else 'const void*'
+        prog = '\n'.join([
+            '// generated replay (prefetch): real AVEL code, counts from the counterexample and around it',
+            '#include <avel/Avel.hpp>', '#include <cstdio>', '#include <csignal>', '#include <cstdlib>', '#include <unistd.h>', '#include <sys/mman.h>',
+            'static const char* what = "";', 'static unsigned long long cur_n = 0;',
+            'static void on_sig(int s) { std::printf("%s on prefetch with %s, n = %llu\\n", s == SIGALRM ? "NO RETURN within 5 s (hang)" : "SIGNAL", what, cur_n); std::fflush(stdout); std::_Exit(1); }',
+            'int main() {',
+            '  std::signal(SIGSEGV, on_sig); std::signal(SIGBUS, on_sig); std::signal(SIGALRM, on_sig);',
+            '  const long pg = sysconf(_SC_PAGESIZE);',
+            '  unsigned char* region = (unsigned char*)mmap(0, 3 * pg, PROT_NONE, MAP_PRIVATE | MAP_ANONYMOUS, -1, 0);',
+            '  static unsigned char buf[8192];',
+            '  struct { const void* p; const char* w; } ptrs[] = {{nullptr, "a null pointer"}, {(const void*)0x1008, "a misaligned invalid address"}, {region + pg, "the start of an inaccessible page"},',
+            '     {region + pg + 8, "an offset inside an inaccessible page"}, {buf + 64 - ((unsigned long long)buf %% 64), "a cache-line aligned valid buffer"}, {buf + 8, "a valid buffer"}};',
+            '  const unsigned long long ns[] = {%dull, 0ull, 1ull, 63ull, 64ull, 65ull, 256ull};' % n_value,
+            '  for (auto& pp : ptrs) for (unsigned long long n : ns) { what = pp.w; cur_n = n; alarm(5); avel::%s%s((%s)pp.p, (std::size_t)n); alarm(0); }' % (pf['name'], tpl, pt),
+            '  std::printf("REPLAY: real code satisfies the contract on this input\\n"); return 0;', '}']) + '\n'
+        rec['program'] = prog
+        res = build_and_run(prog, ob.cfgs[0], sc.path('replay-' + tag), ubsan=False) if do_replay else {'status': 'confirmed', 'output': 'not executed (replay cap)'}
+        rec['replay'] = res
+        status = res['status']
+    elif inputs is not None and ob.contract.cxx:
         try:
             ib = {}
             fn = ob.fn
